@@ -22,6 +22,13 @@ DirNext == \/ \E k \in Keys, v \in Vals : Can /\ Set(k, v)
            \/ Can /\ Flush(1)
            \/ Can /\ Reload(1, 1)
            \/ Can /\ ClearCache(0)
+\* directed alphabet 2: snapshots that are not hashed before the next writes (values sitting in branch nodes: key <<0,0>> is a
+\* proper prefix of two other keys of KL4), looked at afterwards
+DirNext2 == \/ \E k \in Keys, v \in Vals : Can /\ Set(k, v)
+            \/ \E k \in Keys : Can /\ Del(k)
+            \/ Can /\ SnapLazy(1)
+            \/ Can /\ Check(1, 1)
+IA4b == <<2, 2, 1, 2>>
 IA0 == [i \in 1..Len(KeyList) |-> 0]
 IA4 == <<0, 2, 2, 2>>     \* 40-byte values: every node is stored by hash
 ====
